@@ -2,40 +2,78 @@
 From PV Require Import Lib.Base C33.Model C33.ModelPA C33.Proofs.
 Open Scope Z_scope.
 
-(* Phase-1 validation (all five era validators and the dispatch of validate_tx, as modelled) never
-   panics: for every transaction, UTxO set and environment whose numeric fields are in the ranges of
-   their Rust types (fee: u64, minfee_a/minfee_b/collateral_percentage: u32, UTxO lovelace: u64), in
-   both build profiles [dev] (overflow checks on / wrapping), given that the un-modelled certificate
-   check does not panic. *)
+(* The one known class on which a modelled operation can still panic: an overflow-checked build [dev]
+   validating a Shelley-MA transaction that carries a MIR certificate at a block slot so large that the
+   first slot of the next epoch does not fit in u64 (first_slot = GenesisValues::relative_slot_to_absolute,
+   pallas-traverse/src/time.rs, multiplies and adds in plain u64). *)
+Definition known_mir_deadline (dev : bool) (t : tx) (e : env) : Prop :=
+  dev = true /\ existsb is_mir (opt_list (t_certs t)) = true /\
+  U64 <= 4492800 + (to_epoch (e_slot e) + 1 - 208) * 432000.
+
+(* Phase-1 validation (the five era validators - now including shelley_ma::check_certificates with its
+   pointer bookkeeping, deposits counters, retirement bounds, genesis delegations, MIR sums and the
+   epoch/slot arithmetic - and the dispatch of validate_tx, as modelled) never panics: for every
+   transaction, certificate state, UTxO set and environment whose numeric fields are in the ranges of
+   their Rust types, in both build profiles, outside the known class. *)
 Theorem validate_total : forall dev t u e,
-  wf_params (e_pp e) = true -> wf_tx t = true -> wf_utxo u = true -> is_panic (c_certs t) = false ->
+  wf_params (e_pp e) = true -> wf_tx t = true -> wf_utxo u = true -> ~ known_mir_deadline dev t e ->
   is_panic (validate dev t u e) = false.
-Proof. exact validate_np. Qed.
+Proof.
+  intros dev t u e Hp Ht Hu Hk. apply validate_np; try assumption. unfold mir_slot_ok.
+  destruct (existsb is_mir (opt_list (t_certs t))) eqn:Em; [|left; reflexivity]. right.
+  destruct dev; [right | left; reflexivity].
+  destruct (Z_lt_le_dec (4492800 + (to_epoch (e_slot e) + 1 - 208) * 432000) U64) as [Hl|Hl]; [exact Hl|].
+  exfalso. apply Hk. repeat split; assumption.
+Qed.
 
 (* the same for every rule function of the era validator taken on its own (also after an earlier rule failed) *)
 Theorem rules_total : forall dev t u e,
-  wf_params (e_pp e) = true -> wf_tx t = true -> wf_utxo u = true -> is_panic (c_certs t) = false ->
+  wf_params (e_pp e) = true -> wf_tx t = true -> wf_utxo u = true -> ~ known_mir_deadline dev t e ->
   Forall (fun c => is_panic c = false) (era_checks dev t u e).
-Proof. exact era_checks_np. Qed.
+Proof.
+  intros dev t u e Hp Ht Hu Hk. apply era_checks_np; try assumption. unfold mir_slot_ok.
+  destruct (existsb is_mir (opt_list (t_certs t))) eqn:Em; [|left; reflexivity]. right.
+  destruct dev; [right | left; reflexivity].
+  destruct (Z_lt_le_dec (4492800 + (to_epoch (e_slot e) + 1 - 208) * 432000) U64) as [Hl|Hl]; [exact Hl|].
+  exfalso. apply Hk. repeat split; assumption.
+Qed.
 
-(* the unchecked operations that remain in the code cannot overflow on in-range operands *)
+(* block slots of any realistic chain are far inside the safe range: below 2^63 nothing is excluded *)
+Theorem known_class_needs_huge_slot : forall dev t e, 0 <= e_slot e < 2 ^ 63 -> ~ known_mir_deadline dev t e.
+Proof.
+  intros dev t e Hs (_ & _ & H). unfold to_epoch, U64 in H.
+  destruct (e_slot e <? 4492800) eqn:E; lia.
+Qed.
+
+(* the unchecked operations that remain in the validators cannot overflow on in-range operands *)
 Theorem collateral_percentage_no_overflow : forall paid fee pct,
   paid < U64 -> 0 <= fee < U64 -> 0 <= pct < U32 -> is_panic (pct_below paid fee pct) = false.
 Proof. exact np_pct_below. Qed.
 Theorem min_fee_no_overflow : forall dev pp size, wf_params pp = true -> is_panic (min_fee_u32 dev pp size) = false.
 Proof. exact np_min_fee. Qed.
 
-(* non-vacuity: inputs satisfying every hypothesis, on which validation returns a validation error
-   (a Conway transaction spending 2^63-1 of an asset and minting 1 more of it while paying out 1) *)
-Definition ex_uout : uout := Build_uout EConway 6 false (AShelley 1 (PKey 5)) (VMulti 10 [(7, [(8, I64MAX)])]) DNone None 0 [].
-Definition ex_out : tout := Build_tout false (AShelley 1 (PKey 5)) (VMulti 10 [(7, [(8, 1)])]) 1 DNone false.
+(* the known class is real: an Allegra transaction with one MIR certificate validated at slot 2^64-1 *)
+Definition empty_cstate : cstate := Build_cstate [] [] [] [] [] [] [].
+Definition refute_uout : uout := Build_uout EAlonzoC 2 true (AShelley 1 (PKey 5)) (VCoin 10) DNone None 0 [].
+Definition refute_tx : tx :=
+  Build_tx 2 100 [(1, 0)] [] 0 (Some (U64 - 1)) None None None None None None None None None None []
+           None None (Some []) None None None None None None (Some [CMir false None]) empty_cstate None [] [].
+Definition refute_env : env :=
+  Build_env (Build_params 1 0 0 16384 0 0 0 0 0 0 0 0 0 false false false 0 0 0 18) 764824073 (U64 - 1) 1 true 0 0.
+Theorem validate_total_refuted :
+  wf_params (e_pp refute_env) = true /\ wf_tx refute_tx = true /\ wf_utxo [((false, 1, 0), refute_uout)] = true /\
+  is_panic (validate true refute_tx [((false, 1, 0), refute_uout)] refute_env) = true.
+Proof. vm_compute. repeat split; reflexivity. Qed.
+
+(* non-vacuity: two stake registrations in one transaction satisfy every hypothesis; validation returns
+   PointerInUse (221): the certificates at positions 0 and 1 share certificate index 0 *)
 Definition ex_tx : tx :=
-  Build_tx 6 100 [(1, 0)] [ex_out] 0 None None (Some [(7, [(8, 1)])]) None None None None None None None None []
-           None None (Some []) None None None None None None (Ok tt) 0 0 0 [] [].
+  Build_tx 3 100 [(1, 0)] [] 0 (Some 100) None None None None None None None None None None []
+           None None (Some []) None None None None None None (Some [CReg 10; CReg 12]) empty_cstate None [] [].
 Definition ex_env : env :=
-  Build_env (Build_params 6 0 0 16384 0 0 0 1 5000 150 3 0 0 true true true 0 0) 764824073 5 1 true.
+  Build_env (Build_params 1 0 0 16384 0 0 0 0 0 0 0 0 0 false false false 0 0 0 18) 764824073 50 1 true 0 0.
 Example validate_total_example :
-  wf_params (e_pp ex_env) = true /\ wf_tx ex_tx = true /\ wf_utxo [((false, 1, 0), ex_uout)] = true /\
-  is_panic (c_certs ex_tx) = false /\
-  validate true ex_tx [((false, 1, 0), ex_uout)] ex_env = Err 417.
-Proof. repeat split; reflexivity. Qed.
+  wf_params (e_pp ex_env) = true /\ wf_tx ex_tx = true /\ wf_utxo [((false, 1, 0), refute_uout)] = true /\
+  ~ known_mir_deadline true ex_tx ex_env /\
+  validate true ex_tx [((false, 1, 0), refute_uout)] ex_env = Err 221.
+Proof. repeat split; try reflexivity. intros (_ & H & _). discriminate. Qed.
